@@ -6,6 +6,7 @@ pub mod wire;
 pub mod endpoints;
 pub mod client_rig;
 pub mod client_scen;
+pub mod c03_http;
 pub mod c04_subs_conc;
 pub mod c06_subs;
 pub mod c07_limits;
